@@ -1346,6 +1346,17 @@ impl<'a> World<'a> {
                         _ => parts.push(format!("lt=438 {}", *rng.pick(&["nononce", "norealm", "noerr", "noalgs", "integ=auto"]))),
                     }
                 }
+                if rng.chance(p.p_srv_hostile, 2000) {
+                    // an error response whose reason phrase is around the 763-byte limit, with a multi-byte character
+                    // at a chosen byte offset
+                    parts.push(format!(
+                        "code={} reason={}:{}:{}",
+                        *rng.pick(&[300u64, 400, 420, 500, 699]),
+                        *rng.pick(&[0u64, 1, 33, 127, 128, 509, 762, 763, 764, 765, 800, 2000]),
+                        rng.below(70),
+                        rng.below(3)
+                    ));
+                }
                 if mech == Mech::LongTerm && rng.chance(p.p_srv_hostile, 1000) {
                     parts.push(format!(
                         "lt={} hostile={}{}",
@@ -1390,6 +1401,7 @@ impl<'a> World<'a> {
                         "fp" => format!("srv_fp_{}", val),
                         "lt" => format!("srv_lt_{}", val),
                         "hostile" => "srv_hostile_string".to_string(),
+                        "reason" => "srv_long_reason_phrase".to_string(),
                         "dup" => "srv_dup_response".to_string(),
                         "think" => "srv_slow".to_string(),
                         "extra" => "srv_splice".to_string(),
@@ -1655,6 +1667,7 @@ impl<'a> World<'a> {
         // application actions and injections are drawn up front
         let p = self.profile.clone();
         let mut t = 0u64;
+        let mut burst_left = 0u64;
         let mut last_action = 0u64;
         for k in 0..self.cfg.n_app {
             if self.opts.skip_apps.contains(&k) {
@@ -1675,8 +1688,14 @@ impl<'a> World<'a> {
                         2 => 600 * SEC - rng.below(SEC),
                         _ => rng.log_range(600 * SEC, 5000 * SEC),
                     }
-                } else if rng.chance(p.p_burst, 1000) {
-                    // back to back with the previous action: the same instant, or one nanosecond later
+                } else if burst_left > 0 || rng.chance(p.p_burst, 1000) {
+                    // back to back with the previous action: the same instant, or one nanosecond later;
+                    // bursts come in runs of 2-9 actions
+                    if burst_left > 0 {
+                        burst_left -= 1;
+                    } else {
+                        burst_left = rng.range(1, 8);
+                    }
                     rng.below(2)
                 } else if rng.chance(p.p_align, 1000) {
                     // start this request a whole number of RTOs after the previous one, so that retransmission
